@@ -170,7 +170,10 @@ def _sorted(eng, args, kwargs, node):
     items = eng.iterate_concrete(src)
     key = kwargs.get('key')
     rev = kwargs.get('reverse', False)
-    keys = [eng.call(key, [x], {}) if key is not None else x for x in items]
+    if type(key).__name__ == '_KeyFn':
+        keys = [key.a[x] for x in items]
+    else:
+        keys = [eng.call(key, [x], {}) if key is not None else x for x in items]
     if not any(eng._has_sym(k) for k in keys):
         try:
             order = sorted(range(len(items)), key=lambda i: keys[i], reverse=bool(rev))
@@ -446,6 +449,10 @@ def _exc_class(name):
     return f
 
 
+def _locals(eng, args, kwargs, node):
+    raise Unsupported('locals() needs the calling frame')
+
+
 def _divmod(eng, args, kwargs, node):
     a, b = args
     return (eng.binop(ast.FloorDiv(), a, b, node), eng.binop(ast.Mod(), a, b, node))
@@ -660,7 +667,9 @@ def set_method(eng, base, attr, node):
         def f(eng_, args, kwargs):
             args2 = []
             for a in args:
-                if isinstance(a, (list, tuple, set, GenResult)):
+                if attr in ('add', 'discard', 'remove'):
+                    a = eng_.hashable(a)
+                elif isinstance(a, (list, tuple, set, frozenset, GenResult)):
                     a = [eng_.hashable(x) for x in eng_.iterate_concrete(a)]
                 else:
                     a = eng_.hashable(a)
